@@ -201,7 +201,9 @@ func fileState(p string) string {
 func readState(p string) string {
 	f, err := os.Open(p)
 	if err != nil {
-		if os.IsNotExist(err) {
+		// no such entry — also when a file stands where a directory would have to be, or the name is longer than any
+		// entry can be
+		if os.IsNotExist(err) || errors.Is(err, syscall.ENOTDIR) || errors.Is(err, syscall.ENAMETOOLONG) {
 			return "absent"
 		}
 		return "unreadable"
@@ -263,7 +265,7 @@ var errPanicked = errors.New("panic left WriteFileWithMode")
 var errnoNames = map[syscall.Errno]string{
 	syscall.ENOSPC: "ENOSPC", syscall.EIO: "EIO", syscall.EACCES: "EACCES", syscall.EISDIR: "EISDIR",
 	syscall.ENOTEMPTY: "ENOTEMPTY", syscall.EEXIST: "EEXIST", syscall.EBADF: "EBADF", syscall.ENOENT: "ENOENT",
-	syscall.EXDEV: "EXDEV", syscall.EFBIG: "EFBIG", syscall.EPERM: "EPERM", syscall.EROFS: "EROFS",
+	syscall.EXDEV: "EXDEV", syscall.EFBIG: "EFBIG", syscall.ENOTDIR: "ENOTDIR", syscall.ENAMETOOLONG: "ENAMETOOLONG", syscall.EPERM: "EPERM", syscall.EROFS: "EROFS",
 }
 
 // resCode is the canonical form of a returned error (no paths).
@@ -286,6 +288,8 @@ func resCode(err error) string {
 		return "errno:" + strconv.Itoa(int(en))
 	case errors.Is(err, os.ErrInvalid):
 		return "invalid"
+	case errors.Is(err, os.ErrExist): // CreateTemp after 1000 collisions (a bare os.ErrExist, no errno)
+		return "exist"
 	}
 	return "other"
 }
